@@ -204,6 +204,16 @@ func init() {
 			malformedFiles["default-"+dn+"-on-array-of-objects"] = `{"type":"object","properties":{"limits":{"type":"array","items":{"type":"object","properties":{"cpu":{"type":"integer"}}},"default":[` + dv + `]}}}`
 			malformedFiles["default-"+dn+"-on-string-enum"] = `{"type":"object","properties":{"limits":{"type":"string","enum":["a","b"],"default":` + dv + `}}}`
 		}
+		// exclusiveMinimum / exclusiveMaximum (and the other numeric keywords the parser keeps as raw values) given as a JSON
+		// value of another type: a quoted number, an array, an object, null — on number and integer members, in definitions
+		// reached through items, with and without the inclusive bound next to them
+		for wn, wv := range map[string]string{"quoted-number": `"1"`, "array": `[1]`, "object": `{"v":1}`, "word": `"yes"`, "empty-string": `""`} {
+			for _, kw := range []string{"exclusiveMinimum", "exclusiveMaximum"} {
+				malformedFiles["wrongly-typed-"+kw+"-"+wn] = `{"type":"object","properties":{"ratio":{"type":"number","minimum":0,"` + kw + `":` + wv + `}}}`
+				malformedFiles["wrongly-typed-"+kw+"-"+wn+"-integer"] = `{"type":"object","properties":{"n":{"type":"integer","maximum":10,"` + kw + `":` + wv + `}},"required":["n"]}`
+				malformedFiles["wrongly-typed-"+kw+"-"+wn+"-in-definition"] = `{"type":"object","$defs":{"R":{"type":"number","` + kw + `":` + wv + `}},"properties":{"rs":{"type":"array","items":{"$ref":"#/$defs/R"}}}}`
+			}
+		}
 		for _, name := range core.SortedKeys(malformedFiles) {
 			cases = append(cases, cliCase{"malformed-file", name, map[string]string{"s.json": malformedFiles[name]}, []string{"-p", "x", "-o", "gen.go", "s.json"}, false, ""},
 				cliCase{"malformed-file", name, map[string]string{"s.json": malformedFiles[name]}, []string{"-p", "x", "s.json"}, false, ""})
@@ -215,6 +225,8 @@ func init() {
 					[]string{"-p", "x", "-o", "gen.go", "s.json"}, false, ""})
 		}
 		yamlJunk := map[string]string{"tabs": "type:\tobject\n\t- x", "unclosed": "type: [object", "anchors": "a: &a\n  b: *a\n", "scalar": "just a string", "dup-keys": "type: object\ntype: string\n"}
+		yamlJunk["exclusive-bound-yes"] = "type: object\nproperties:\n  ratio:\n    type: number\n    minimum: 0\n    exclusiveMinimum: yes\n"
+		yamlJunk["exclusive-bound-quoted"] = "type: object\nproperties:\n  n:\n    type: integer\n    maximum: 9\n    exclusiveMaximum: \"1\"\n"
 		for _, name := range core.SortedKeys(yamlJunk) {
 			cases = append(cases, cliCase{"malformed-yaml", name, map[string]string{"s.yaml": yamlJunk[name]}, []string{"-p", "x", "-o", "gen.go", "s.yaml"}, false, ""})
 		}
